@@ -17,7 +17,8 @@ RUN_TIMEOUT_S = 60
 RULE = (
     "seeded histories of 0..40 block writes into one CooMatrix of shape 0..8 x 0..8, index kinds "
     "{int, numpy int, list, ndarray, slice with +/- step, empty}, value kinds {dense 2-D, dense 1-D, scalar, "
-    "csr/csc/coo_array (coo with duplicate coordinates), nested CooMatrix, None}, overlapping indices on purpose, "
+    "csr/csc/coo_array (coo with duplicate coordinates), nested CooMatrix (built inline, or one of up to 3 persistent "
+    "sub-containers that are themselves written to, embedded repeatedly and converted), None}, overlapping indices on purpose, "
     "conversions {tocoo,tocsr,tocsc,toarray,asformat(.)} compared exactly with a dense accumulator after writes; "
     "histories may end with one shape-inconsistent write that must raise. distinct = distinct sets of "
     "(row kind, col kind, value kind) triples x overlap flag x conversion formats x ended-with-bad-write; "
@@ -144,21 +145,59 @@ def _gen_bad(rng, m, n):
     return None
 
 
+def _gen_pool_write(rng, shapes, c, src):
+    """Write the persistent container ``src`` as a block into container ``c``."""
+    (m, n), (r, k) = shapes[c], shapes[src]
+
+    def idx(total, need):
+        if need == total and rng.random() < 0.6:
+            return {"k": "slice", "s": [None, None, None]}
+        if total == 0:
+            return None
+        kind = "list" if rng.random() < 0.5 else "array"
+        if need == total and rng.random() < 0.5:
+            return {"k": kind, "idx": list(range(total))}
+        return {"k": kind, "idx": [int(x) for x in rng.integers(0, total, size=need)]}
+
+    rs, cs = idx(m, r), idx(n, k)
+    if rs is None or cs is None:
+        if (r and rs is None) or (k and cs is None):
+            return None
+        rs = rs or {"k": "empty", "as": "list"}
+        cs = cs or {"k": "empty", "as": "list"}
+    return {"op": "write", "c": c, "rows": rs, "cols": cs, "val": {"k": "pool", "src": src, "sh": [r, k]}}
+
+
 def gen(rng, tier, index):
     m, n = int(rng.integers(0, 9)), int(rng.integers(0, 9))
     nw = int(rng.integers(0, 41)) if rng.random() < 0.7 else int(rng.integers(0, 6))
     p_conv = float(rng.choice([0.15, 0.5, 1.0]))
+    # persistent sub-containers (containers in their own right, embedded and re-used)
+    shapes = [[m, n]]
+    if rng.random() < 0.5:
+        for _ in range(int(rng.integers(1, 4))):
+            shapes.append([m, n] if rng.random() < 0.5 else [int(rng.integers(0, 5)), int(rng.integers(0, 5))])
     ops = []
     for _ in range(nw):
-        ops.append(_gen_write(rng, m, n))
+        c = 0
+        if len(shapes) > 1 and rng.random() < 0.35:
+            c = int(rng.integers(len(shapes)))
+        w = None
+        if len(shapes) > 1 and c < len(shapes) - 1 and rng.random() < 0.45:
+            w = _gen_pool_write(rng, shapes, c, int(rng.integers(c + 1, len(shapes))))
+        if w is None:
+            w = _gen_write(rng, shapes[c][0], shapes[c][1])
+            w["c"] = c
+        ops.append(w)
         if rng.random() < p_conv:
-            ops.append({"op": "convert", "fmt": FORMATS[int(rng.integers(len(FORMATS)))]})
-    ops.append({"op": "convert", "fmt": FORMATS[int(rng.integers(len(FORMATS)))]})
+            ops.append({"op": "convert", "c": int(rng.integers(len(shapes))), "fmt": FORMATS[int(rng.integers(len(FORMATS)))]})
+    for c in range(len(shapes)):
+        ops.append({"op": "convert", "c": c, "fmt": FORMATS[int(rng.integers(len(FORMATS)))]})
     if rng.random() < 0.35:
         b = _gen_bad(rng, m, n)
         if b is not None:
             ops.append(b)
-    return {"shape": [m, n], "ops": ops}
+    return {"shape": [m, n], "subs": shapes[1:], "ops": ops}
 
 
 # ------------------------------------------------------------------ executor
@@ -249,21 +288,37 @@ def _convert(coo, fmt):
 def execute(plan, out, log):
     from cardillo.utility.coo_matrix import CooMatrix
 
-    shape = tuple(plan["shape"])
-    coo = CooMatrix(shape)
-    dense = np.zeros(shape)
+    shapes = [tuple(plan["shape"])] + [tuple(x) for x in plan.get("subs", [])]
+    coos = [CooMatrix(sh) for sh in shapes]
+    denses = [np.zeros(sh) for sh in shapes]
     triples = set()
     fmts = set()
     overlap = False
-    touched = np.zeros(shape, dtype=int)
+    touched = np.zeros(shapes[0], dtype=int)
     n_writes = 0
     bad = False
     for k, op in enumerate(plan["ops"]):
+        ci = op.get("c", 0)
+        if ci >= len(coos):
+            continue  # container dropped by the shrinker
+        coo, dense, shape = coos[ci], denses[ci], shapes[ci]
         if op["op"] == "write":
+            vk = op["val"]["k"]
+            if vk == "pool" and op["val"]["src"] >= len(coos):
+                continue
             try:
-                _, rres = _build_index(op["rows"], shape[0])
-                _, cres = _build_index(op["cols"], shape[1])
-                _apply_write(coo, dense, op, shape)
+                rk, rres = _build_index(op["rows"], shape[0])
+                ck, cres = _build_index(op["cols"], shape[1])
+                if vk == "pool":
+                    src = op["val"]["src"]
+                    coo[rk, ck] = coos[src]
+                    if len(rres) and len(cres):
+                        np.add.at(dense, (np.array(rres, dtype=int)[:, None], np.array(cres, dtype=int)[None, :]), denses[src])
+                    out["probes"]["pool_container_embedded"] += 1
+                    if len(coos[src].data) and shapes[src] == shape:
+                        out["probes"]["pool_same_shape_embedded"] += 1
+                else:
+                    _apply_write(coo, dense, op, shape)
             except Exception as e:
                 out["violations"].append(
                     violation(
@@ -274,18 +329,19 @@ def execute(plan, out, log):
                 )
                 log.ev("write_raised", k, type(e).__name__)
                 break
-            vk = op["val"]["k"]
             triples.add((op["rows"]["k"], op["cols"]["k"], vk))
             if vk != "none":
                 n_writes += 1
-                if len(rres) and len(cres):
+                if ci == 0 and len(rres) and len(cres):
                     sub = touched[np.ix_(sorted(set(rres)), sorted(set(cres)))]
                     if sub.any() or len(set(rres)) < len(rres) or len(set(cres)) < len(cres):
                         overlap = True
                         out["probes"]["overlapping_write"] += 1
                     touched[np.ix_(sorted(set(rres)), sorted(set(cres)))] += 1
             out["probes"]["write_" + vk] += 1
-            log.ev("write", k, vk, len(rres), len(cres))
+            if ci:
+                out["probes"]["write_into_sub_container"] += 1
+            log.ev("write", k, ci, vk, len(rres), len(cres))
         elif op["op"] == "convert":
             try:
                 got = _convert(coo, op["fmt"])
@@ -296,14 +352,15 @@ def execute(plan, out, log):
                 break
             fmts.add(op["fmt"])
             out["probes"]["convert_" + op["fmt"]] += 1
-            log.ev("convert", k, op["fmt"], np.asarray(got, dtype=float))
+            log.ev("convert", k, ci, op["fmt"], np.asarray(got, dtype=float))
             if got.shape != dense.shape or not np.array_equal(got, dense):
                 diff = "shape" if got.shape != dense.shape else float(np.max(np.abs(got - dense)))
+                which = "the container" if ci == 0 else f"sub-container {ci} (itself embedded / re-used elsewhere)"
                 out["violations"].append(
                     violation(
                         "accumulate_mismatch",
-                        op["fmt"],
-                        f"op {k}: {op['fmt']} differs from dense accumulation (max diff {diff}) after {n_writes} writes",
+                        op["fmt"] + ("" if ci == 0 else "/sub"),
+                        f"op {k}: {op['fmt']} of {which} differs from the dense accumulation of the blocks written to it (max diff {diff}) after {n_writes} writes",
                     )
                 )
                 break
@@ -330,17 +387,17 @@ def execute(plan, out, log):
             break  # nothing is promised about the container after a rejected write
     out["steps"] = len(plan["ops"])
     out["nontrivial"] = n_writes > 0 and len(fmts) > 0
-    out["abstract"] = repr((sorted(triples), overlap, sorted(fmts), bad))
+    out["abstract"] = repr((sorted(triples), overlap, sorted(fmts), bad, len(shapes)))
 
 
 # ------------------------------------------------------------------ shrinking
 def shrink(plan):
     ops = plan["ops"]
     for c in ddmin_list(ops):
-        yield {"shape": plan["shape"], "ops": c}
+        yield dict(plan, ops=c)
     # simplify nested values
     for i, op in enumerate(ops):
         if op["op"] == "write" and op["val"]["k"] == "nested" and op["val"]["ops"]:
             for c in ddmin_list(op["val"]["ops"]):
                 new = dict(op, val=dict(op["val"], ops=c))
-                yield {"shape": plan["shape"], "ops": ops[:i] + [new] + ops[i + 1 :]}
+                yield dict(plan, ops=ops[:i] + [new] + ops[i + 1 :])
